@@ -35,7 +35,7 @@ Case ==
   IN [tag |-> "case", u |-> u, unit |-> d.unit, e |-> d.e,
       k |-> DeclCount(u),
       changed |-> d.unit # u,
-      blank |-> \E i \in 1..Len(u) : u[i] = " ",
+      blank |-> \E i \in 1..Len(u) : u[i] \in Spaces,
       raw |-> SetToSeq({c \in ValueClasses : ReaderStoreT(TRUE, u, t, c).unit # d.unit})]
 
 Emit == IF Wanted THEN PrintT(ToJson(Case)) ELSE TRUE
